@@ -59,6 +59,7 @@ type Contract struct {
 	Inline   bool // callers inline the body instead of using the contract
 	Traces   []*TraceDecl
 	Mode     string
+	OnlyLayers map[string]bool
 	File     string
 	ParamNames []string // for extern/iface contracts: declared parameter names
 	ResultNames []string
@@ -418,6 +419,11 @@ func (db *ContractDB) LoadContractFile(file, pkgPath string) {
 				cur.Inline = true
 			case "mode":
 				cur.Mode = strings.TrimSpace(r)
+			case "layers":
+				cur.OnlyLayers = map[string]bool{}
+				for _, l := range strings.Fields(r) {
+					cur.OnlyLayers[l] = true
+				}
 			case "holds", "releases", "acquires":
 				e, err := ParseSpecExpr(r)
 				if err != nil {
